@@ -10,7 +10,7 @@ from fractions import Fraction
 from ..gen.ledger import Opts, gen_ledger, render_dsl
 from ..model import hmrc, fx as fxm
 from ..probe import probe
-from ..util import rng_for, sha, fr, dstr, iso, d as pdate, ZERO, TOL_10DP, TOL_FINE
+from ..util import cap_viols, rng_for, sha, fr, dstr, iso, d as pdate, ZERO, TOL_10DP, TOL_FINE
 from . import ledger_core as lc
 from . import c01
 
@@ -129,7 +129,7 @@ def run_model(desc):
                               "detail": f"{y['period']}: {float(y['dividend_income'])!r} vs {float(inc)!r}", "case": case})
         if len(samples) < 1 and len(txs) <= 8:
             samples.append({"ledger": lc.brief(txs)})
-    return {"evaluations": len(cases), "nontrivial_hashes": hashes, "counters": cnt, "violations": viols[:20],
+    return {"evaluations": len(cases), "nontrivial_hashes": hashes, "counters": cnt, "violations": cap_viols(viols),
             "samples": samples, "sets": sets}
 
 
@@ -195,7 +195,7 @@ def run_twin(desc):
                           "detail": "; ".join(diffs[:3]), "case": case})
         elif len(samples) < 1 and len(base) <= 6:
             samples.append({"foreign": lc.brief(foreign), "gbp_twin": lc.brief(base)})
-    return {"evaluations": len(reqs), "nontrivial_hashes": hashes, "counters": cnt, "violations": viols[:20], "samples": samples}
+    return {"evaluations": len(reqs), "nontrivial_hashes": hashes, "counters": cnt, "violations": cap_viols(viols), "samples": samples}
 
 
 def run_missing(desc):
@@ -276,7 +276,7 @@ def run_missing(desc):
             viols.append({"clause": "missing-rate-message", "signature": "missing-rate-message", "detail": e["message"], "case": case})
         elif len(samples) < 1:
             samples.append({"mode": mode, "ledger": lc.brief(txs, 8), "error": e["message"]})
-    return {"evaluations": len(reqs), "nontrivial_hashes": hashes, "counters": cnt, "violations": viols[:20], "samples": samples}
+    return {"evaluations": len(reqs), "nontrivial_hashes": hashes, "counters": cnt, "violations": cap_viols(viols), "samples": samples}
 
 
 def xml_file(year, month, rates, period=None, dup=False):
@@ -404,7 +404,7 @@ def run_folder(desc):
                                   "detail": str(oc.get("err"))[:200], "case": {"op": "calc", "txs": txs, "fx": spec}})
         if len(samples) < 1 and files:
             samples.append({"label": label, "files": [f["name"] for f in files], "overridden_keys": [list(k) for k in list(table.over)[:4]]})
-    return {"evaluations": n_eval, "nontrivial_hashes": hashes, "counters": cnt, "violations": viols[:20], "samples": samples}
+    return {"evaluations": n_eval, "nontrivial_hashes": hashes, "counters": cnt, "violations": cap_viols(viols), "samples": samples}
 
 
 def run_cli(desc):
@@ -467,7 +467,7 @@ def run_cli(desc):
         elif len(samples) < 1 and table.over:
             samples.append({"cli": "report in.cgt --format json --fx-folder fx", "files": [f["name"] for f in files],
                             "currency_month": f"{c} {y}-{m:02d}", "gross_proceeds": str(got)})
-    return {"evaluations": desc["n"], "nontrivial_hashes": hashes, "counters": cnt, "violations": viols[:20], "samples": samples}
+    return {"evaluations": desc["n"], "nontrivial_hashes": hashes, "counters": cnt, "violations": cap_viols(viols), "samples": samples}
 
 
 def run_table(desc):
@@ -489,7 +489,7 @@ def run_table(desc):
         viols.append({"clause": "bundled-table-size", "signature": "bundled-table-size",
                       "detail": f"tool cache {o.get('len')} entries, independent parse {len(keys)} keys",
                       "case": {"op": "fx_get"}})
-    return {"evaluations": len(keys), "nontrivial_hashes": set(list(hashes)[:2000]), "counters": cnt, "violations": viols[:20],
+    return {"evaluations": len(keys), "nontrivial_hashes": set(list(hashes)[:2000]), "counters": cnt, "violations": cap_viols(viols),
             "samples": [{"key": list(keys[0]), "tool_rate": o["ok"][0]}]}
 
 
@@ -540,7 +540,7 @@ def run_mcp(desc):
                           "detail": f"{c} {y}-{m:02d} absent from the table but answered {got}", "case": {"op": "mcp-request", "request": r}})
         else:
             cnt["mcp_fx_absent_keys_refused"] += 1
-    return {"evaluations": len(reqs), "nontrivial_hashes": hashes, "counters": cnt, "violations": viols[:20], "samples": []}
+    return {"evaluations": len(reqs), "nontrivial_hashes": hashes, "counters": cnt, "violations": cap_viols(viols), "samples": []}
 
 
 def run_shard(desc):
